@@ -380,6 +380,11 @@ func ruleReplacementAccumulates(c *Ctx, rule string) {
 					if sc := y.Call.StaticCallee(); sc == nil {
 						opaque = true
 					}
+					// the arguments only: the callee of a static call is not a function value that is handed around
+					for _, a := range y.Call.Args {
+						walk(a, d+1)
+					}
+					return
 				}
 				if in, ok := x.(ssa.Instruction); ok {
 					for _, op := range in.Operands(nil) {
@@ -401,6 +406,19 @@ func ruleReplacementAccumulates(c *Ctx, rule string) {
 					a = b.X
 				}
 				leftmost = exprStr(a)
+				// `written := ""; if has { written = previous }`: every alternative is the previous text or the empty default
+				if _, isPhi := a.(*ssa.Phi); isPhi {
+					all := true
+					for _, leaf := range phiLeaves(a, nil) {
+						ls := exprStr(leaf)
+						if ls != `""` && !strings.Contains(ls, ".match.Replacement") {
+							all = false
+						}
+					}
+					if all {
+						leftmost = prev
+					}
+				}
 			}
 			switch {
 			case opaque || (usesPrev && leftmost == ""):
@@ -891,18 +909,35 @@ func ruleEnvFresh(c *Ctx, rule, pkg, typ, consequence string) {
 					}
 				}
 				ncall, problem := 0, ""
-				for _, caller := range c.SrcFuncs(pkg) {
-					for _, cl := range callsTo(caller, fn) {
-						ncall++
-						if idx < 0 || idx >= len(cl.Call.Args) {
-							problem = "call with unexpected arity"
-							continue
-						}
-						if fresh, why := c.deepFresh(cl.Call.Args[idx], 0); !fresh {
-							problem = fnName(caller) + " passes " + why
+				// (a caller that hands on a parameter of its own moves the obligation to its callers in turn)
+				var visit func(callee *ssa.Function, idx int, depth int)
+				visit = func(callee *ssa.Function, idx int, depth int) {
+					for _, caller := range c.SrcFuncs(pkg) {
+						for _, cl := range callsTo(caller, callee) {
+							ncall++
+							if idx < 0 || idx >= len(cl.Call.Args) {
+								problem = "call with unexpected arity"
+								continue
+							}
+							if p2, ok := cl.Call.Args[idx].(*ssa.Parameter); ok && depth < 3 {
+								j := -1
+								for i, p := range caller.Params {
+									if p == p2 {
+										j = i
+									}
+								}
+								if j >= 0 && len(c.callersIn(pkg, caller)) > 0 {
+									visit(caller, j, depth+1)
+									continue
+								}
+							}
+							if fresh, why := c.deepFresh(cl.Call.Args[idx], 0); !fresh {
+								problem = fnName(caller) + " passes " + why
+							}
 						}
 					}
 				}
+				visit(fn, idx, 0)
 				switch {
 				case ncall == 0:
 					ob.Und("the environment is a parameter and no caller was found")
